@@ -245,7 +245,14 @@ def gen_sock_case(rng, ctx, idx):
                 pr = rng.choice(PROTOS if rng.random() < 0.93 else ["SCTP", ""])
                 if hp:
                     mine.append(hp)
-                ps.append(dict(hostPort=hp, containerPort=80, protocol=pr, podName=pod.split("_")[0], podIP="10.0.0.9"))
+                # a host IP on the mapping does not change which sockets galaxy holds: the port is held on every address
+                hip = rng.choice(["", "", "", "127.0.0.1", "127.0.0.2"])
+                ps.append(dict(hostPort=hp, containerPort=80, protocol=pr, podName=pod.split("_")[0], podIP="10.0.0.9", **({"hostIP": hip} if hip else {})))
+                if hp and rng.random() < 0.15:
+                    # the same port once more, on another host IP (one pod, one port number, two addresses)
+                    ps.append(dict(hostPort=hp, containerPort=81, protocol=pr, podName=pod.split("_")[0], podIP="10.0.0.9",
+                                   hostIP="127.0.0.2" if hip != "127.0.0.2" else "127.0.0.1"))
+                    ctx.dist("sock:same-port-two-host-ips")
             steps.append(dict(op="open", pod=pod, random=random_on, ports=ps))
             ctx.dist("sock:open" + ("-random" if random_on else "") + ("-reopen" if pod in opened else ""))
             opened.add(pod)
